@@ -96,6 +96,11 @@ func (st *programState) runBalancesQuery() error {
 	// values are not forgotten. Values are copied: the maps and integers
 	// handed over by the store are never modified by the interpreter
 	for accountName, accountBalances := range balances {
+		// the balance of @world is never requested: ignore it if the store volunteers it,
+		// so that results do not depend on how much the store returns
+		if accountName == "world" {
+			continue
+		}
 		cachedAccountBalances := defaultMapGet(st.CachedBalances, accountName, func() AccountBalance {
 			return AccountBalance{}
 		})
